@@ -491,7 +491,7 @@ impl<'a> Selector<'a> {
             Expr::FilterFunc(filter_expr) => match filter_expr {
                 FilterFunc::Exists(paths) => self.eval_exists(root, pos, paths),
             },
-            _ => todo!(),
+            _ => Err(Error::InvalidJsonPath),
         }
     }
 
